@@ -277,6 +277,16 @@ func factsC14() {
 	boolFact(g, "recvFrameWritesOwnPipe", rf != nil && len(allCalls(rf, `^s\.recvBuf\.Write$`)) == 1 && len(allCalls(rf, `\.Write$`)) == 1,
 		"Stream.recvFrame: exactly one write, into the stream's own recvBuf")
 	sr := fnOf(mx, "Stream.Read")
+	// Stream.Read's first statement: `if len(buf) == 0 { return 0, nil }` -- an empty buffer never reaches the pipe
+	emptyNoop := false
+	if sr != nil && len(sr.Body.List) > 0 {
+		if ifs, ok := sr.Body.List[0].(*ast.IfStmt); ok && ifs.Init == nil && ifs.Else == nil && show(ifs.Cond) == "len(buf) == 0" && len(ifs.Body.List) == 1 {
+			if ret, ok := ifs.Body.List[0].(*ast.ReturnStmt); ok && len(ret.Results) == 2 && show(ret.Results[0]) == "0" && show(ret.Results[1]) == "nil" {
+				emptyNoop = true
+			}
+		}
+	}
+	boolFact(g, "streamReadEmptyBufIsNoop", emptyNoop, "Stream.Read: first statement `if len(buf) == 0 { return 0, nil }`")
 	boolFact(g, "streamReadReadsOwnPipe", sr != nil && len(allCalls(sr, `^s\.recvBuf\.Read$`)) == 1 && len(allCalls(sr, `\.Read$`)) == 1,
 		"Stream.Read: exactly one read, from the stream's own recvBuf")
 }
